@@ -995,3 +995,101 @@ func checkAppendBinds(c *Ctx, p *Prog, rule string) {
 		}
 	}
 }
+
+// checkBatchedStream (C11.R3 / C10.R6): the batched SQLite stream decides "this was the
+// last batch" by comparing the number of rows it got with the very value it passed as
+// LIMIT, and continues from the last position it saw.
+func checkBatchedStream(c *Ctx, p *Prog, rule string) {
+	n := 0
+	for _, f := range p.FuncsIn(PkgSQLite) {
+		li := loopsOf(f)
+		for _, b := range f.Blocks {
+			for _, in := range b.Instrs {
+				call, ok := in.(*ssa.Call)
+				if !ok || !strings.HasSuffix(calleeName(call.Common()), ").QueryContext") || li.headerOf[b] == nil {
+					continue
+				}
+				// SQL text with LIMIT ?
+				var sqlText string
+				for _, a := range call.Common().Args {
+					if k, ok := a.(*ssa.Const); ok && k.Value != nil && k.Value.Kind() == constant.String {
+						sqlText = strings.ToUpper(constant.StringVal(k.Value))
+					}
+				}
+				if !strings.Contains(sqlText, "LIMIT ?") {
+					continue
+				}
+				n++
+				name := FuncDisplay(f) + "/batched-query"
+				// bound arguments
+				var bound []ssa.Value
+				if sl, ok := call.Common().Args[len(call.Common().Args)-1].(*ssa.Slice); ok {
+					if al, ok := sl.X.(*ssa.Alloc); ok {
+						tmp := map[int64]ssa.Value{}
+						for _, ref := range *al.Referrers() {
+							if ia, ok := ref.(*ssa.IndexAddr); ok {
+								idx, _ := ia.Index.(*ssa.Const)
+								for _, r2 := range *ia.Referrers() {
+									if st, ok := r2.(*ssa.Store); ok && st.Addr == ia && idx != nil {
+										tmp[idx.Int64()] = stripConv(st.Val)
+									}
+								}
+							}
+						}
+						for i := int64(0); i < int64(len(tmp)); i++ {
+							bound = append(bound, tmp[i])
+						}
+					}
+				}
+				if len(bound) < 2 {
+					c.Unresolved(rule, name+"/bound-args", "cannot see the values bound to the batched query")
+					continue
+				}
+				limitVal := bound[len(bound)-1]
+				cursor := bound[0]
+				header := li.headerOf[b]
+				body := li.body[header]
+				// the end-of-log test
+				okEnd := false
+				var seen []string
+				for blk := range body {
+					iff, ok := blk.Instrs[len(blk.Instrs)-1].(*ssa.If)
+					if !ok {
+						continue
+					}
+					bo, ok := iff.Cond.(*ssa.BinOp)
+					if !ok || (bo.Op != token.LSS && bo.Op != token.GEQ) || !isBasicKind(bo.X.Type(), types.Int) {
+						continue
+					}
+					leaves := false
+					for _, s := range blk.Succs {
+						if !body[s] {
+							leaves = true
+						}
+					}
+					if !leaves {
+						continue
+					}
+					seen = append(seen, bo.String())
+					if stripConv(bo.Y) == limitVal {
+						okEnd = true
+					}
+				}
+				c.Check(okEnd, rule, name+"/short-batch-test-agrees-with-LIMIT", p.Pos(in.Pos()), "the loop ends when a batch has fewer rows than the value bound to LIMIT", "the 'fewer rows than the batch size means end of log' test compares with a different value than the one bound to LIMIT (the query is clamped or sized differently): a full batch is taken for the last one and the stream ends early without an error")
+				// the cursor advances to the last position seen
+				okCur := false
+				if ph, ok := cursor.(*ssa.Phi); ok {
+					for _, ed := range ph.Edges {
+						if ex, ok := stripConv(ed).(*ssa.Extract); ok {
+							if _, ok := ex.Tuple.(*ssa.Call); ok && isBasicKind(ex.Type(), types.Int64) {
+								okCur = true
+							}
+						}
+					}
+				}
+				c.Check(okCur, rule, name+"/cursor-is-last-position", p.Pos(in.Pos()), "the next batch starts after the last position the previous batch saw", "the batched stream does not continue from the last position it saw")
+			}
+		}
+	}
+	c.Floor(rule, "batched queries", n, 1)
+}
